@@ -101,7 +101,7 @@ def search(ck, tier, seed):
                                 what = "missing" if gflat is None else "wrong"
                                 if e["umnn"] and direction == "inverse":
                                     # UMNN inverts by 25 bisection steps built from comparisons: no derivative flows through it
-                                    ck.finding("gradient:umnn-inverse-by-bisection:%s" % e["name"],
+                                    ck.finding("gradient:umnn-inverse-by-bisection:%s" % e["name"].split("(")[0],
                                                "%s inverse: d/d%s[%d]: autograd %r, finite difference %r" % (e["name"], nm, i, a, d), case)
                                     break
                                 ck.finding("gradient:%s:%s:%s%s" % (what, e["name"], "input" if nm in ("input", "context") else "parameter",
